@@ -14,8 +14,9 @@ values for them, and — for follow-up lookups — has the form
 `Props/C02.lean` proves the header / variables part stage-wise, for all selection sets. Here the
 statement is proved about the calls `Exec.gateway` actually makes, for the unbounded families of
 `C01_flat_one_hop` (one object, two owners), `C01_flat_list_one_hop` (a list of objects, two
-owners; the batch of de-duplicated lookups) and `C06_flat_mutation_calls` (leaf mutation root
-fields, any number of owners).
+owners; the batch of de-duplicated lookups), `C06_flat_mutation_calls` (leaf mutation root
+fields, any number of owners) and `C06_flat_followup_is_query` (the same plus one object-valued
+mutation root field, whose follow-up lookup is a `query`).
 
 Spec side (definitions in `Proofs/C02Flat1.lean`, written from the statement, independent of the
 planner model): `C02.ValidFor S rq` — the decidable predicate "a validator at the service accepts
@@ -24,9 +25,10 @@ its doc comment); `C02.occOn S T n rq` — how often `rq` selects the field `T.n
 through `S`; `C02.selecting svcs T n calls` — the (URL, request) pairs among `calls` whose request
 selects `T.n`; `C02.IsNodeLookup T sub rq` — `rq` is exactly
 `query($id: ID!) { node(id: $id) { ... on T { sub } } }`; `C02.SubrequestsOK` — the conclusion,
-field by field. The hypotheses about the SERVICE schemas are `Flat.SvcFam` / `Mut.SvcFam`
-(`Proofs/C02Flat2.lean`, `Proofs/C02Flat5.lean`); `Flat.Fam` / `Mut.Fam` speak of the merged
-schema and the routing table only. Proofs: `Proofs/C02Flat1…7.lean`, `Proofs/C02Calls.lean`.
+field by field; `C02.RequestOK` / `C02.MutORequestOK` — the same for one request. The hypotheses
+about the SERVICE schemas are `Flat.SvcFam` (= `Flat.SvcTA` + `Flat.SvcB` + the root field),
+`Mut.SvcFam`, `MutO.SvcFam` (`Proofs/C02Flat2.lean`, `C02Flat5.lean`, `C02Flat7.lean`); `Flat.Fam`
+/ `Mut.Fam` / `MutO.Fam` speak of the merged schema and the routing table only. Proofs: `Proofs/C02Flat1…7.lean`, `Proofs/C02Calls.lean`.
 
 Three layers, from the most general:
 * `C02_requests_are_plan_steps` — ALL operations, ALL plans, ALL downstreams: every request of every
@@ -34,11 +36,14 @@ Three layers, from the most general:
   steps of the plan against the schemas of their services — what the C02 harness does with
   gqlparser on the real planner's plan — covers everything that is ever sent);
 * `C02_flat_every_downstream`, `C02_flat_list_every_downstream`,
-  `C02_flat_mutation_every_downstream`, `C02_flat_followup_every_downstream` — the flat families, EVERY downstream (wrong answers and
-  faults included): every request sent is valid for its service, of the right form, and selects a
+  `C02_flat_mutation_every_downstream`, `C02_flat_followup_every_downstream` — the flat families,
+  EVERY downstream (wrong answers and faults included): every request sent is valid for its service, of the right form, and selects a
   client field iff it goes to the field's owner;
+* `C02_flat_guarded`, `C02_flat_list_guarded`, `C02_flat_mutation_guarded`, `C02_flat_followup_guarded`
+  — the same for runs that end in an error too (a validating front before the services never fires;
+  general form `C02_downstream_consulted_on_plan_only`);
 * `C02_flat_subrequests_valid`, `C02_flat_list_subrequests_valid`,
-  `C02_flat_mutation_subrequests_valid` (+ `…_any`) — with services answering as the reference
+  `C02_flat_mutation_subrequests_valid`, `C02_flat_followup_subrequests_valid` (+ `…_any`) — with services answering as the reference
   evaluator does (or any well-formed answers) the call list is known exactly: one request to `A`,
   one batch of lookups to `B`, ids of the entities, each field in exactly one request.
 -/
@@ -65,6 +70,22 @@ theorem C02_requests_are_plan_steps (c : PCtx) (cfg : ExecCfg) (op : Op) (rv : O
       getVariables (withDeclaredDefaults Gen.Vars.declaredDefaultsApplied op rv) c ⟨s, ip⟩ = .ok vars ∧
       rq = requestOf c s vars :=
   gateway_requests_are_plan_steps c cfg rv down op so steps sf hplan res h
+
+/-- **The downstream is consulted on requests of the plan only — also in runs that end in an
+    error.** (`GwResult.calls` lists the calls of runs that end well; this theorem covers every run.)
+    Two downstreams that agree on every batch all of whose requests are formatted forms of steps of
+    the plan, sent to those steps' service, give the same outcome of `Exec.gateway`: same data, same
+    errors, same calls, same fault. So no other request is ever handed to a service. -/
+theorem C02_downstream_consulted_on_plan_only (c : PCtx) (cfg : ExecCfg) (op : Op) (rv : Option (List (String × J)))
+    (down down' : Downstream) (so : Scrub → Scrub) (steps : List Step) (sf : Scrub)
+    (hplan : plan c op = .ok (steps, sf))
+    (hagree : ∀ url batch,
+      (∀ rq ∈ batch, ∃ s ip vars, InPlan steps s ∧ s.url = url ∧
+        getVariables (withDeclaredDefaults Gen.Vars.declaredDefaultsApplied op rv) c ⟨s, ip⟩ = .ok vars ∧
+        rq = requestOf c s vars) →
+      down url batch = down' url batch) :
+    gateway c cfg op rv down so = gateway c cfg op rv down' so :=
+  gateway_congr_on_plan c cfg rv down down' op so steps sf hplan hagree
 
 /-! ## one object, two owners -/
 
@@ -301,6 +322,43 @@ theorem C02_flat_followup_subrequests_valid {c : PCtx} {ms : List Mut.MSpec} {A 
       ∀ cl ∈ calls, ∀ rq ∈ cl.batch, C02.MutORequestOK svcs A B T fs cl.url rq := by
   obtain ⟨d, hgw⟩ := MutO.stage_gateway h down i ho1 ho2 hone hine hg
   exact ⟨d, _, hgw, rfl, C02.mutO_every_downstream h hs down _ hgw⟩
+
+/-! ## no invalid request is ever handed to a service -/
+
+/-- **A validating front before the services changes nothing** — the four families. `GwResult.calls`
+    records the calls of runs that END WELL; a run that ends in an error reports none. To cover every
+    run: `C02.guardValid svcs down` is `down` behind a front that refuses (with a fault) any batch
+    containing a request that is not `ValidFor` the schema of the service called. For every
+    downstream `down`, `Exec.gateway` gives the SAME outcome (data, errors, calls or fault) with and
+    without the front — so, for a `down` that never itself raises that fault, no batch with an
+    invalid request is handed to a service at any point of any run. -/
+theorem C02_flat_guarded {c : PCtx} {A B T q : String} {fs : List Flat.FieldSpec}
+    (h : Flat.Fam c A B T q fs) (svcs : List Svc) (SA SB : Schema) (hs : Flat.SvcFam c A B T q fs SA SB)
+    (hsA : svcs.find? (·.url == A) = some ⟨A, SA⟩) (hsB : svcs.find? (·.url == B) = some ⟨B, SB⟩)
+    (down : Downstream) :
+    gateway c {} ⟨.query, "", [], [Flat.Q T q fs]⟩ none (C02.guardValid svcs down)
+      = gateway c {} ⟨.query, "", [], [Flat.Q T q fs]⟩ none down :=
+  C02.flat_guarded h hs svcs hsA hsB down
+
+theorem C02_flat_list_guarded {c : PCtx} {A B T q : String} {fs : List Flat.FieldSpec}
+    (h : Flat.Fam c A B T q fs) (svcs : List Svc) (SA SB : Schema) (hs : Flat.SvcFam c A B T q fs SA SB)
+    (hsA : svcs.find? (·.url == A) = some ⟨A, SA⟩) (hsB : svcs.find? (·.url == B) = some ⟨B, SB⟩)
+    (down : Downstream) :
+    gateway c {} ⟨.query, "", [], [FlatList.QL T q fs]⟩ none (C02.guardValid svcs down)
+      = gateway c {} ⟨.query, "", [], [FlatList.QL T q fs]⟩ none down :=
+  C02.flat_list_guarded h hs svcs hsA hsB down
+
+theorem C02_flat_mutation_guarded {c : PCtx} {ms : List Mut.MSpec} (h : Mut.Fam c ms)
+    (svcs : List Svc) (hs : Mut.SvcFam c ms svcs) (down : Downstream) :
+    gateway c {} (Mut.op c ms) none (C02.guardValid svcs down) = gateway c {} (Mut.op c ms) none down :=
+  C02.mut_guarded h hs down
+
+theorem C02_flat_followup_guarded {c : PCtx} {ms : List Mut.MSpec} {A B T o : String}
+    {fs : List Flat.FieldSpec} (h : MutO.Fam c ms A B T o fs) (svcs : List Svc)
+    (hs : MutO.SvcFam c ms A B T o fs svcs) (down : Downstream) :
+    gateway c {} (MutO.op c ms T o fs) none (C02.guardValid svcs down)
+      = gateway c {} (MutO.op c ms T o fs) none down :=
+  C02.mutO_guarded h hs down
 
 /-! ## instances -/
 
@@ -550,6 +608,12 @@ theorem C02_flat_list_every_downstream_instance (down : Downstream) (res : GwRes
     ∀ cl ∈ res.calls, ∀ rq ∈ cl.batch, C02.RequestOK svcsL "A" "B" "Animal" FlatList.Example.fs cl.url rq :=
   C02_flat_list_every_downstream FlatList.Example.fam svcsL schemaAL schemaB svcFamL (by rfl) (by rfl) down res hg
 
+/-- non-vacuity of `C02_flat_guarded`: the example federation, every downstream -/
+theorem C02_flat_guarded_instance (down : Downstream) :
+    gateway Flat.Example.ctx {} ⟨.query, "", [], [Flat.Q "Animal" "animal" Flat.Example.fs]⟩ none (C02.guardValid svcs1 down)
+      = gateway Flat.Example.ctx {} ⟨.query, "", [], [Flat.Q "Animal" "animal" Flat.Example.fs]⟩ none down :=
+  C02_flat_guarded Flat.Example.fam svcs1 schemaA1 schemaB svcFam1 (by rfl) (by rfl) down
+
 end Instances
 
 /-! ## checks by evaluation (tests of the definitions, not obligations)
@@ -659,7 +723,12 @@ theorem C02_flat_invalid_if_misrouted :
   · decide
   · decide
 
--- the same by evaluation of the whole pipeline (a test)
+-- the same by evaluation of the whole pipeline (tests): the request to `B` is invalid, and behind
+-- the validating front of `C02_flat_guarded` the run is refused instead of answered
+#guard (match gateway C02.Misrouted.ctx {} ⟨.query, "", [], [Flat.Q "Animal" "animal" C02.Misrouted.fs]⟩ none
+    (C02.guardValid C02.Example.svcs1 (specDownstream C02.Example.svcs1 Flat.Example.data)) with
+  | .error (.panic m) => m == "invalid sub-request"
+  | _ => false)
 #guard C02.Example.allValid C02.Example.svcs1
     (gateway C02.Misrouted.ctx {} ⟨.query, "", [], [Flat.Q "Animal" "animal" C02.Misrouted.fs]⟩ none
       (specDownstream C02.Example.svcs1 Flat.Example.data))
